@@ -21,11 +21,11 @@ Definition cross_sched : list (nat * Q) := [wk 0 0; wk 1 0; wk 2 0; wk 2 (1#8); 
 Lemma cross_clock_refuted :
   let s := xrt_run kgen 0 cross_prog 0 cross_sched in
   xs_bad s = false /\ xs_early s = false /\ n_q (x_n (xs s)) = [] /\
-  xnrt_completed kgen cross_prog 10 = true /\
+  xnrt_completed kgen true cross_prog 10 = true /\
   ob_vals (obs_rt kgen 0 cross_prog 0 cross_sched) = [VDraw 2 1 1 0 5000; VDraw 1 1 1 0 5001] /\
   ob_vals (obs_nrt kgen cross_prog 10) = [VDraw 1 1 1 0 5000; VDraw 2 1 1 0 5001] /\
   (* every routine still observes exactly its own logical times *)
-  (forall rid, ob_resumes (obs_rout 0 (xs s) rid) = ob_resumes (obs_rout 0 (xnrt_loop kgen cross_prog 10 (xnrt_init cross_prog)) rid)) /\
+  (forall rid, ob_resumes (obs_rout 0 (xs s) rid) = ob_resumes (obs_rout 0 (xnrt_loop kgen true cross_prog 10 (xnrt_init cross_prog)) rid)) /\
   (* and the real-time execution that follows logical time agrees with the non-real-time run *)
   obs_of 0 (xs (xrt_ordered kgen 0 cross_prog 10 (xrt_init cross_prog 0))) = obs_nrt kgen cross_prog 10.
 Proof.
@@ -83,7 +83,7 @@ Proof.
 Qed.
 Lemma sys_example :
   let s := xrt_run kgen 7 sys_prog 3 sys_sched in
-  xs_bad s = false /\ n_q (x_n (xs s)) = [] /\ xnrt_completed kgen sys_prog 10 = true /\
+  xs_bad s = false /\ n_q (x_n (xs s)) = [] /\ xnrt_completed kgen true sys_prog 10 = true /\
   length (ob_bundles (obs_nrt kgen sys_prog 10)) = 3%nat /\
   ob_vals (obs_nrt kgen sys_prog 10) =
     [VDraw 0 0 1 0 7000; VDraw 0 0 1 1 7001; VDraw 1 0 1 2 7002; VDraw 2 0 2 4 9000; VDraw 2 1 2 5 9001;
@@ -101,5 +101,26 @@ Proof.
   - apply Nat.eqb_eq. rewrite <- H. apply Nat.eqb_eq. exact E.
   - apply Nat.eqb_eq. rewrite H. apply Nat.eqb_eq. exact E.
 Qed.
-Lemma sys_keeps : keeps_to_itself 2 2 (x_vals (xnrt_loop kgen sys_prog 10 (xnrt_init sys_prog))).
+Lemma sys_keeps : keeps_to_itself 2 2 (x_vals (xnrt_loop kgen true sys_prog 10 (xnrt_init sys_prog))).
 Proof. apply keepsb_ok. vm_compute. reflexivity. Qed.
+
+(* ---- the non-real-time code as found: two pending wake-ups after pause(); resume() -------------------- *)
+(* the root plays a child, pauses it and resumes it before the child's first wake-up *)
+Definition dup_prog : xprog :=
+  mkXP [] [[XPlay 1 CSystem; XPause 1; XResume 1];
+           [XYield (1#4); XSend (Some 0) [EMsg 1]; XYield (1#4); XSend (Some 0) [EMsg 2]]] 0 0 1 0.
+Definition rs (rid k : nat) (t : Q) : nat * nat * Q := (rid, k, t).
+Definition dup_sched : list (nat * Q) := [wk 0 0; wk 1 0; wk 1 (1#4); wk 1 (1#2)].
+Lemma dup_prog_ok : sys_only dup_prog.
+Proof. split; [reflexivity|]. repeat constructor; simpl; try lra; try discriminate. Qed.
+Lemma nrt_as_found_refuted :
+  xnrt_completed kgen false dup_prog 10 = true /\ xnrt_completed kgen true dup_prog 10 = true /\
+  xs_bad (xrt_run kgen 0 dup_prog 0 dup_sched) = false /\ n_q (x_n (xs (xrt_run kgen 0 dup_prog 0 dup_sched))) = [] /\
+  (* as found: the child is woken twice at time 0 and sends its bundles at 0 and 1/4 *)
+  ob_resumes (obs_nrt_as_found kgen dup_prog 10) = [rs 0 0 0; rs 1 0 0; rs 1 1 0; rs 1 2 (1#4)] /\
+  map fst (ob_bundles (obs_nrt_as_found kgen dup_prog 10)) = [0; 1#4] /\
+  (* real time (one entry per task in the clock's queue), and the repaired non-real-time code *)
+  ob_resumes (obs_rt kgen 0 dup_prog 0 dup_sched) = [rs 0 0 0; rs 1 0 0; rs 1 1 (1#4); rs 1 2 (1#2)] /\
+  map fst (ob_bundles (obs_rt kgen 0 dup_prog 0 dup_sched)) = [1#4; 1#2] /\
+  obs_rt kgen 0 dup_prog 0 dup_sched = obs_nrt kgen dup_prog 10.
+Proof. vm_compute. repeat split; reflexivity. Qed.
